@@ -217,9 +217,18 @@ func (tr *fnTr) ret(s *ast.ReturnStmt) (string, error) {
 	return "(" + strings.Join(parts, ", ") + ")", nil
 }
 
+var opAssign = map[token.Token]token.Token{token.ADD_ASSIGN: token.ADD, token.SUB_ASSIGN: token.SUB, token.MUL_ASSIGN: token.MUL,
+	token.AND_ASSIGN: token.AND, token.OR_ASSIGN: token.OR, token.XOR_ASSIGN: token.XOR, token.SHL_ASSIGN: token.SHL, token.SHR_ASSIGN: token.SHR}
+
 // assign returns the let-prefix for x := e, x = e, a, b := f(..)
 func (tr *fnTr) assign(s *ast.AssignStmt) (string, error) {
 	p := tr.pos(s)
+	if op, ok := opAssign[s.Tok]; ok && len(s.Lhs) == 1 && len(s.Rhs) == 1 { // x op= e  is  x = x op (e)
+		if _, isId := s.Lhs[0].(*ast.Ident); isId {
+			return tr.assign(&ast.AssignStmt{Lhs: s.Lhs, TokPos: s.TokPos, Tok: token.ASSIGN,
+				Rhs: []ast.Expr{&ast.BinaryExpr{X: s.Lhs[0], OpPos: s.TokPos, Op: op, Y: &ast.ParenExpr{Lparen: s.Rhs[0].Pos(), X: s.Rhs[0]}}}})
+		}
+	}
 	if s.Tok != token.DEFINE && s.Tok != token.ASSIGN {
 		return "", bad(p, "assignment operator %s", s.Tok)
 	}
